@@ -681,7 +681,7 @@ Qed.
 (* Request::close hands back a parser whose leftover, together with the rest of the segment, is whole records of the
    stream section of the request just closed; the segments not yet opened are untouched *)
 Definition closed_ok (rp : parser) (w : world) : Prop :=
-  bytes_ok (remaining w) /\
+  bytes_ok (remaining w) /\ len (held rp) <= CAP /\
   exists tl cur, sfx tl srs /\ segs w = cur ++ LS /\ held rp ++ flat cur = enc_rcds tl /\ rp = mkParser CAP (held rp) Header.
 
 Lemma close_tail_K r1 disc code w1 rp w' : KS r1 w1 -> close_tail maxc r1 disc code w1 = Ok (inl rp) w' -> closed_ok rp w'.
@@ -707,6 +707,9 @@ Proof.
   destruct (negb (len (a_out (abs (close_p4 r3))) =? 0)); [discriminate IR|]. injection IR as <-. cbn [held].
   split; [rewrite (same_but_io_remaining _ _ Hsame); exact R2|].
   destruct K3 as (HB & vm & tl & cur & HS & Hs & Hsg & HC & HV).
+  split.
+  { change (a_raw (abs (close_p4 r3))) with (raw_bytes (close_p4 r3)). rewrite V2.
+    destruct A3 as (Hok & _). unfold a_ok in Hok. rewrite HB in Hok. change (a_raw (abs (rsp r3))) with (raw_bytes (rsp r3)) in Hok. cbn [held]. lia. }
   exists tl, cur. split; [exact Hs|]. split; [rewrite Hsegs; exact Hsg|].
   change (a_raw (abs (close_p4 r3))) with (raw_bytes (close_p4 r3)). rewrite V2. split.
   - unfold is_record_boundary in Eb. apply andb_true_iff in Eb. destruct Eb as [Ep Eq]. apply N.eqb_eq in Ep. apply N.eqb_eq in Eq.
@@ -798,3 +801,182 @@ Proof.
     exists g', p2, rq. split; [exact C1|]. split; [congruence|]. repeat split; assumption.
 Qed.
 End Between4.
+
+(* ------------------------------------------------------------------------------------------ *)
+(* Part E: Token::run with the trace                                                            *)
+(* ------------------------------------------------------------------------------------------ *)
+Lemma world_ok_of_remaining w : bytes_ok (remaining w) -> world_ok w.
+Proof.
+  unfold world_ok, remaining. induction (segs w) as [|s t IH]; intros H; [constructor|].
+  cbn [flat_map] in H. apply bytes_ok_app in H. constructor; [apply H|apply IH, H].
+Qed.
+
+Lemma enc_client_ne cs : Forall (fun s : N * N * creq => creq_ok (snd s)) cs -> nonempty_segs (enc_client cs).
+Proof.
+  induction 1 as [|[[ge gm] c] t Hc Ht IH]; [constructor|]. cbn [enc_client map fst snd]. constructor; [|exact IH].
+  cbn [snd]. apply (creq_seg_ok c Hc).
+Qed.
+
+Lemma flat_enc_client_cons ge gm c cs :
+  flat (enc_client ((ge, gm, c) :: cs)) = enc_rcds (preamble_rcds (c_pre c)) ++ enc_rcds (c_srs c) ++ flat (enc_client cs).
+Proof. cbn [enc_client map flat_map fst snd]. unfold creq_rcds. rewrite enc_rcds_app, <- app_assoc. reflexivity. Qed.
+
+Lemma rcds_bytes_ok rs : Forall rcd_ok rs -> bytes_ok (enc_rcds rs).
+Proof. intros H. apply whole_bytes_ok. exists rs. split; [exact H|reflexivity]. Qed.
+
+Lemma VB_MI_junk rs : Forall rcd_ok rs -> Forall no_begin_abort rs -> VB MI 0 0 (enc_rcds rs) = true.
+Proof.
+  intros H1 H2. rewrite <- (app_nil_r (enc_rcds rs)).
+  rewrite (VB_junk MI rs [] H1 (junks_plain MI rs H2 (or_introl eq_refl))). rewrite VB_nil. reflexivity.
+Qed.
+
+Lemma len_enc_rcds_sfx (tl rs : list rcd) : sfx tl rs -> len (enc_rcds tl) <= len (enc_rcds rs).
+Proof. intros [pre ->]. rewrite enc_rcds_app, len_app. lia. Qed.
+
+(* a preamble preceded by more junk *)
+Definition pre_with (junk : list rcd) (pw : preamble) : preamble :=
+  mkPreamble (junk ++ w_idle pw) (w_id pw) (w_role pw) (w_flags pw) (w_beginpad pw) (w_pieces pw) (w_endjunk pw) (w_endpad pw).
+
+Lemma preamble_rcds_with junk pw : preamble_rcds (pre_with junk pw) = junk ++ preamble_rcds pw.
+Proof. unfold preamble_rcds, pre_with. cbn [w_idle w_id w_role w_flags w_beginpad w_pieces w_endjunk w_endpad]. rewrite <- app_assoc. reflexivity. Qed.
+
+Lemma preamble_ok_with junk pw : Forall rcd_ok junk -> Forall no_begin_abort junk -> preamble_ok pw -> preamble_ok (pre_with junk pw).
+Proof.
+  intros H1 H2 (P1 & P). unfold preamble_ok, pre_with. cbn [w_idle w_id w_role w_flags w_beginpad w_pieces w_endjunk w_endpad].
+  split; [|exact P]. apply Forall_app. split; [|exact P1].
+  rewrite Forall_forall in *. intros r Hr. split; [apply H1, Hr|left; apply (H2 r Hr)].
+Qed.
+
+Lemma preamble_fits_with c junk pw : Forall (gv_fits c) junk -> preamble_fits c pw -> preamble_fits c (pre_with junk pw).
+Proof.
+  intros H (P1 & P). unfold preamble_fits, pre_with. cbn [w_idle w_pieces w_endjunk]. split; [|exact P].
+  apply Forall_app. split; assumption.
+Qed.
+
+Lemma len_enc_preamble pw : 24 <= len (enc_rcds (preamble_rcds pw)).
+Proof.
+  unfold preamble_rcds. rewrite !enc_rcds_app, !len_app. cbn [enc_rcds flat_map]. rewrite !app_nil_r, !len_enc_rcd.
+  cbn [rbody rpad]. change (len (begin_encode (w_role pw) (w_flags pw))) with 8. rewrite len_nil. lia.
+Qed.
+
+Section Loop4.
+Variable norm : bytes -> bytes.
+Variable maxc : N.
+Variable B : N.
+Hypothesis HB : B < SIZE_LIMIT - 8.
+Variable scripts : list (list N).
+Hypothesis Hscripts : scripts_ok true scripts.
+Notation CAP := (aligned_bufsize B).
+
+Definition junk_ok (junk : list rcd) : Prop :=
+  Forall rcd_ok junk /\ Forall no_begin_abort junk /\ Forall (gv_fits CAP) junk.
+
+(* between two requests, [cs] being the requests not yet released: the leftover of the parser and the rest of the
+   segment it was read from are whole records that start no request *)
+Definition between (cs : list (N * N * creq)) (p : parser) (w : world) : Prop :=
+  exists junk cur, junk_ok junk /\ segs w = cur ++ enc_client cs /\ held p ++ flat cur = enc_rcds junk /\
+    p = mkParser CAP (held p) Header /\ len (held p) <= CAP /\ bytes_ok (remaining w) /\
+    len (enc_rcds junk) + len (flat (enc_client cs)) < SIZE_LIMIT /\ len (enc_rcds junk) + 24 < SIZE_LIMIT.
+
+Lemma between_flat cs p w junk cur : segs w = cur ++ enc_client cs -> held p ++ flat cur = enc_rcds junk ->
+  held p ++ remaining w = enc_rcds junk ++ flat (enc_client cs).
+Proof. intros Hsg Hh. unfold remaining. rewrite Hsg, flat_map_app, app_assoc, Hh. reflexivity. Qed.
+
+(* no request is left: no handler is started any more *)
+Lemma no_request_left p w fuel s0 w1 : between [] p w -> parse_request norm maxc fuel p [] w <> Ok (inl s0) w1.
+Proof.
+  intros (junk & cur & (J1 & J2 & J3) & Hsg & Hheld & Hp & HL & Hrem & _ & Hsz).
+  destruct p as [pc L ps0]. cbn [held] in *. injection Hp as -> ->.
+  pose proof (between_flat [] (mkParser CAP L Header) w junk cur Hsg Hheld) as Hfl. cbn [held enc_client map flat_map] in Hfl.
+  rewrite app_nil_r in Hfl.
+  assert (HbL : bytes_ok L).
+  { pose proof (rcds_bytes_ok junk J1) as H. rewrite <- Hheld in H. apply bytes_ok_app in H. apply H. }
+  set (pw := mkPreamble junk 1 ROLE_Responder 0 [] [] [] []).
+  set (missing := enc_rcds [begin_rcd 1 ROLE_Responder 0 []; mkRcd RT_Params 1 [] []]).
+  assert (Hm : len missing = 24) by (vm_compute; reflexivity).
+  assert (Hwire : (L ++ remaining w) ++ missing = enc_rcds (preamble_rcds pw)).
+  { rewrite Hfl. unfold pw, preamble_rcds. cbn [w_idle w_id w_role w_flags w_beginpad w_pieces w_endjunk w_endpad flat_map app].
+    rewrite enc_rcds_app. reflexivity. }
+  apply (no_handler_for_partial norm maxc fuel B L w pw [] missing HB HbL HL (world_ok_of_remaining _ Hrem)).
+  - unfold preamble_ok, pw. cbn [w_idle w_id w_role w_flags w_beginpad w_pieces w_endjunk w_endpad].
+    split; [rewrite Forall_forall in *; intros r Hr; split; [apply J1, Hr|left; apply (J2 r Hr)]|].
+    split; [lia|]. split; [reflexivity|]. split; [lia|]. split; [rewrite len_nil; lia|]. split; [constructor|].
+    split; [constructor|]. split; [constructor|]. split; [rewrite len_nil; lia|constructor].
+  - constructor.
+  - reflexivity.
+  - constructor.
+  - unfold preamble_fits, pw. cbn [w_idle w_pieces w_endjunk]. split; [exact J3|]. split; constructor.
+  - rewrite <- Hwire, len_app, Hm, Hfl. lia.
+  - intros H. rewrite H in Hm. discriminate Hm.
+  - exact Hwire.
+Qed.
+
+(* the request the next handler is started with is the next request of the client; afterwards the invariant of a
+   request in progress holds *)
+Lemma handover ge gm c cs' ps p w fuel s0 w1 :
+  creq_ok c -> Forall (fun s : N * N * creq => creq_ok (snd s)) cs' -> creq_fits B c ps ->
+  between ((ge, gm, c) :: cs') p w ->
+  parse_request norm maxc fuel p [] w = Ok (inl s0) w1 ->
+  sreq s0 = sent_request norm c ps /\ forall wr lk ab, KS CAP (c_srs c) (enc_client cs') (mkR s0 wr lk ab) w1.
+Proof.
+  intros Hc Hcs' (F1 & F2 & F3 & F4 & F5) (junk & cur & (J1 & J2 & J3) & Hsg & Hheld & Hp & HL & Hrem & Hsz & _) E.
+  destruct p as [pc L ps0]. cbn [held] in *. injection Hp as -> ->.
+  pose proof (between_flat _ (mkParser CAP L Header) w junk cur Hsg Hheld) as Hfl. cbn [held] in Hfl.
+  assert (HbL : bytes_ok L).
+  { pose proof (rcds_bytes_ok junk J1) as H. rewrite <- Hheld in H. apply bytes_ok_app in H. apply H. }
+  assert (Hpok : parser_ok (mkParser CAP L Header)) by (apply reuse_parser_ok; assumption).
+  pose proof Hc as (C1 & C2 & C3 & C4 & C5 & C6 & C7).
+  set (X := flat (enc_client cs')) in *.
+  assert (HflX : flat (enc_client ((ge, gm, c) :: cs')) = enc_rcds (preamble_rcds (c_pre c)) ++ enc_rcds (c_srs c) ++ X).
+  { cbn [enc_client map flat_map fst snd]. unfold creq_rcds. rewrite enc_rcds_app, <- app_assoc. reflexivity. }
+  set (pw := pre_with junk (c_pre c)).
+  set (trailing := enc_rcds (c_srs c) ++ X).
+  assert (Hwire : L ++ remaining w = enc_rcds (preamble_rcds pw) ++ trailing).
+  { rewrite Hfl, HflX. unfold pw, trailing. rewrite preamble_rcds_with, enc_rcds_app, <- app_assoc. reflexivity. }
+  assert (Htr : bytes_ok trailing).
+  { pose proof (world_ok_remaining w (world_ok_of_remaining _ Hrem)) as H.
+    assert (H2 : bytes_ok (L ++ remaining w)) by (apply bytes_ok_app; split; assumption).
+    rewrite Hwire in H2. apply bytes_ok_app in H2. apply H2. }
+  assert (Hsz' : len (enc_rcds (preamble_rcds pw) ++ trailing) < SIZE_LIMIT).
+  { rewrite <- Hwire, Hfl, len_app. exact Hsz. }
+  destruct (handler_sees_request norm maxc fuel B L w pw ps trailing s0 w1 HB HbL HL (world_ok_of_remaining _ Hrem)
+              (preamble_ok_with junk (c_pre c) J1 J2 C1) F1 F2 F3 (preamble_fits_with CAP junk (c_pre c) J3 F4) Htr Hsz' Hwire E)
+    as (R1 & _ & R3 & _).
+  split; [exact R1|].
+  (* which segments were read *)
+  assert (PK0 : PK ge gm (enc_rcds (creq_rcds c)) (enc_client cs') false (mkParser CAP L Header) [] (segs w)).
+  { exists cur. split; [exact Hsg|]. cbn [st held app]. rewrite Hheld. unfold VS. cbn [rvm sprem spad].
+    apply VB_MI_junk; assumption. }
+  destruct (parse_request_K norm maxc ge gm (enc_rcds (creq_rcds c)) (enc_client cs') (creq_seg_ok c Hc) (enc_client_ne cs' Hcs')
+              fuel false (mkParser CAP L Header) [] w s0 w1 Hpok ltac:(constructor) ltac:(rewrite len_nil; lia) Hrem PK0 E)
+    as (g' & p' & rq & P1 & P2 & P3 & P4 & (cur' & Hsg' & HV') & P6).
+  destruct (into_stream_parser_inv p' rq P1 P3) as (sp0 & EI & Hspinv & _ & _ & _ & _ & _ & I6 & _ & _ & Habs).
+  rewrite P4 in EI. injection EI as <-.
+  rewrite I6 in R3. unfold remaining in R3. rewrite Hsg', flat_map_app in R3.
+  destruct g'; cbn [nextsegs] in Hsg', R3.
+  2:{ exfalso. cbn [flat_map snd] in R3. fold X in R3. unfold creq_rcds, trailing in R3. rewrite enc_rcds_app in R3.
+      apply (f_equal len) in R3. rewrite !len_app in R3. pose proof (len_enc_preamble (c_pre c)). lia. }
+  fold X in R3. unfold trailing in R3. rewrite app_assoc in R3. apply app_inv_tail in R3.
+  intros wr lk ab. split; [exact Hspinv|]. split; [exact P6|]. cbn [rsp]. rewrite Habs.
+  split; [cbn [a_B]; rewrite P2; reflexivity|].
+  exists (done_mode (r_id rq) (r_role rq)), (c_srs c), cur'.
+  split; [apply SREL_init|]. split; [apply sfx_refl|]. split; [exact Hsg'|].
+  cbn [a_prem a_pad a_raw app]. split.
+  - exists []. split; [exact R3|reflexivity].
+  - rewrite P3 in HV'. exact HV'.
+Qed.
+
+(* after the close: between two requests again *)
+Lemma closed_between ge gm c cs' ps junk rp w :
+  creq_ok c -> creq_fits B c ps ->
+  len (enc_rcds junk) + len (flat (enc_client ((ge, gm, c) :: cs'))) < SIZE_LIMIT ->
+  closed_ok CAP (c_srs c) (enc_client cs') rp w -> between cs' rp w.
+Proof.
+  intros (C1 & C2 & C3 & C4 & C5 & C6 & C7) (F1 & F2 & F3 & F4 & F5) Hsz (Hrem & HL & tl & cur & Hs & Hsg & Hheld & Hrp).
+  exists tl, cur.
+  split; [split; [apply (sfx_Forall _ _ _ Hs C5)|split; [apply (sfx_Forall _ _ _ Hs C6)|apply (sfx_Forall _ _ _ Hs F5)]]|].
+  split; [exact Hsg|]. split; [exact Hheld|]. split; [exact Hrp|]. split; [exact HL|]. split; [exact Hrem|].
+  rewrite flat_enc_client_cons, !len_app in Hsz.
+  pose proof (len_enc_preamble (c_pre c)). pose proof (len_enc_rcds_sfx _ _ Hs). split; lia.
+Qed.
+End Loop4.
